@@ -88,6 +88,10 @@ class Engine:
         self.inconclusive = []
         self.uf = {}
         self.trace = self.opt.get('trace', False)
+        self.ptrto = {}
+        for t in self.types.values():
+            if t.k == 'ptr':
+                self.ptrto[t.elem] = t.id
         from . import intrinsics
         intrinsics.register(self)
         for name, g in prog.globals.items():
@@ -134,7 +138,7 @@ class Engine:
         elif k == 'slice':
             v = NILSLICE
         elif k == 'struct':
-            v = tuple([self.zero(f['type']) for f in u.fields])
+            v = tuple([self.zero(f['type']) for f in (u.fields or [])])
         elif k == 'array':
             v = (self.zero(u.elem),) * u.len
         elif k == 'tuple':
@@ -491,8 +495,10 @@ class Engine:
         self.path_notes = []
         self.epoch += 1
         outcome = 'ok'
+        self.path_obs = []
         try:
             self.call(fn, list(args))
+            self.sample_observations(fn, args)
         except PathAbort as e:
             outcome = 'abort'
             self.stats.paths_aborted += 1
@@ -514,6 +520,39 @@ class Engine:
             self.stats.instrs += self.path_instrs
         self.stats.paths += 1
         return outcome
+
+    obs_budget = 0
+    obs_samples = []
+
+    def sample_observations(self, fn, args):
+        """on a completed path: take a model of the path condition, evaluate the observed terms under it;
+        the vector is later run natively and the native observations must be identical."""
+        if self.obs_budget <= 0 or not self.path_obs:
+            return
+        if self.check() != z3.sat:
+            return
+        m = self.solver.model()
+        vec = self.model_vector(m)
+        out = []
+        for tag, kind, v in self.path_obs:
+            if kind == 'u':
+                if is_sym(v):
+                    if z3.is_bool(v):
+                        v = 1 if z3.is_true(m.eval(v, model_completion=True)) else 0
+                    else:
+                        v = m.eval(v, model_completion=True).as_long()
+                elif type(v) is bool:
+                    v = 1 if v else 0
+                out.append('%s=%d' % (tag, v))
+            else:
+                bs = []
+                for b in v:
+                    if is_sym(b):
+                        b = m.eval(b, model_completion=True).as_long()
+                    bs.append(b)
+                out.append('%s=%s' % (tag, bytes(bs).hex()))
+        self.obs_budget -= 1
+        self.obs_samples.append({'vector': vec, 'obs': out})
 
     def explore(self, fname, args=(), max_paths=None, deadline=None, prefixes=None):
         """DFS over all paths of harness fname(args). Returns leftover prefixes if stopped early."""
@@ -708,11 +747,29 @@ class Engine:
             return self.invoke(self.ev(d['recv'], regs), d['method'], args)
         fo = d['fnv']
         f = regs[fo] if type(fo) is int else fo.v
+        if self.init_mode:
+            return self.init_call(f, args, ins)
         if type(f) is FuncRef:
             return self.call(self.prog.funcs[f.name], args)
         if type(f) is Builtin:
             return self.builtin(f.name, args, ins)
         return self.call_value(f, args)
+
+    def init_call(self, f, args, ins):
+        if type(f) is FuncRef:
+            fn = self.prog.funcs[f.name]
+            if fn.short == 'init':
+                return None  # dependencies are initialised explicitly, in order
+        try:
+            if type(f) is FuncRef:
+                return self.call(self.prog.funcs[f.name], args)
+            if type(f) is Builtin:
+                return self.builtin(f.name, args, ins)
+            return self.call_value(f, args)
+        except (Unsupported, TypeError, AttributeError, KeyError, IndexError, z3.Z3Exception) as e:
+            self.init_notes.append('%s: %s' % (getattr(f, 'name', f), e))
+            n = ins.d.get('nres', 1)
+            return POISON if n <= 1 else (POISON,) * n
 
     # ------------------------------------------------------------------ builtins
     def builtin(self, name, args, ins):
@@ -1799,3 +1856,38 @@ def float_convert(self, x, st, dt):
 Engine.float_binop = float_binop
 Engine.float_neg = float_neg
 Engine.float_convert = float_convert
+
+
+class Poison:
+    def __repr__(self):
+        return 'Poison'
+
+
+POISON = Poison()
+
+
+def run_inits(self, pkgs=None):
+    """Execute package initialisers concretely (tolerant: an unsupported call yields Poison)."""
+    self.init_mode = True
+    self.solver = z3.Solver()
+    self.prefix = []
+    self.pos = 0
+    self.trail = []
+    order = [p for p in self.prog.pkgorder if p in self.prog.inits]
+    for p in order:
+        if pkgs is not None and p not in pkgs:
+            continue
+        fn = self.prog.funcs[self.prog.inits[p]]
+        try:
+            self.call(fn, [])
+        except (Unsupported, GoPanic, PathAbort) as e:
+            self.init_notes.append('init %s: %s' % (p, e))
+    self.init_mode = False
+    self.undo = []
+    self.stats.instrs += self.path_instrs
+    self.path_instrs = 0
+
+
+Engine.run_inits = run_inits
+Engine.init_mode = False
+Engine.init_notes = []
